@@ -45,7 +45,7 @@ fn class_of(kind: u8) -> &'static str {
 pub fn check(rep: &Reporter) {
 	let thorough = rep.tier.thorough();
 	rep.set_rule(
-		"limits L = 40..260 in steps of 1 (thorough to 600, plus 2048/4096/10000) ∪ {1024, 65536}; for each L and each of 30 response shapes (result / error-with-data × ASCII / needs-escaping / 2-byte / 4-byte UTF-8 / control characters × id width 1 / 20 digits / string) every handler payload size whose unlimited reply is within L±3 (thorough ±6) bytes, plus 0 and a far-too-big one, over HTTP and WebSocket; batches of 1..4 (thorough 6) entries whose array length is L−2…L+2 (thorough ±4) with the adjustable entry at every position, all valid calls or with one other entry (last / middle / first) replaced by a non-request (`17`, an object without method); WebSocket subscribe calls whose response carries a subscription id of controlled width (response length L−2…L+2); plus the full 1-step sweep of MethodResponse::response and BatchResponseBuilder. Oracle: the reply of a server with the limit disabled; every frame on the wire is ≤ L bytes or one of the two fixed errors; the handler log is the same with and without the limit. Distinct by (L, shape, size, transport).",
+		"limits L = 40..260 in steps of 1 (thorough to 600, plus 2048/4096/10000) ∪ {1024, 65536}; for each L and each of 30 response shapes (result / error-with-data × ASCII / needs-escaping / 2-byte / 4-byte UTF-8 / control characters × id width 1 / 20 digits / string) every handler payload size whose unlimited reply is within L±3 (thorough ±6) bytes, plus 0 and a far-too-big one, over HTTP and WebSocket (TowerService), and for limits on a stride of 7 also through http::call_with_service_builder and ws::connect with a request limit above resp. below the response limit; batches of 1..4 (thorough 6) entries whose array length is L−2…L+2 (thorough ±4) with the adjustable entry at every position, all valid calls or with one other entry (last / middle / first) replaced by a non-request (`17`, an object without method); WebSocket subscribe calls whose response carries a subscription id of controlled width (response length L−2…L+2); plus the full 1-step sweep of MethodResponse::response and BatchResponseBuilder. Oracle: the reply of a server with the limit disabled; every frame on the wire is ≤ L bytes or one of the two fixed errors; the handler log is the same with and without the limit. Distinct by (L, shape, size, transport).",
 	);
 	rep.assume("the 'fixed small too-big error itself' (-32008 / -32011) may exceed L, as the statement says");
 
@@ -136,6 +136,87 @@ pub fn check(rep: &Reporter) {
 			}
 		}
 	});
+
+	// ---- the low-level entry points (`http::call_with_service_builder`, `ws::connect`) with a request limit that differs
+	//      from the response limit: the same single-call sweep for ids of width 1 and limits on a stride of 7
+	{
+		let lwork: Vec<(u32, usize)> = lims.iter().filter(|l| **l % 7 == 0 || **l >= 1024).flat_map(|l| (0..shapes.len()).filter(|s| shapes[*s].1 == 0).map(move |s| (*l, s))).collect();
+		par_for(rep, lwork.len(), 4, srv::rt, |i, rt, local: &mut Local| {
+			use http_body_util::BodyExt;
+			let (l, si) = lwork[i];
+			let (mi, ii, ki) = shapes[si];
+			let _e = rt.enter();
+			// request limit well above and (second pass) below the response limit
+			for req_limit in [l.saturating_mul(50).max(4096), 300u32] {
+				let scfg = srv::cfg_builder().max_response_body_size(l).max_request_body_size(req_limit).build();
+				let window = 2i64;
+				let mut ns: Vec<usize> = (0..=NMAX).filter(|n| (unl[&(mi, ii, ki, *n)].len() as i64 - l as i64).abs() <= window).collect();
+				ns.push(0);
+				ns.dedup();
+				for n in ns {
+					let text = call_text(METHODS[mi], IDS[ii], KINDS[ki], n);
+					if text.len() as u32 > req_limit {
+						continue;
+					}
+					let want = &unl[&(mi, ii, ki, n)];
+					for tname in ["low-http", "low-ws"] {
+						let log: srv::InvLog = Default::default();
+						let got: Result<Vec<u8>, String> = rt.block_on(async {
+							let (stop, handle) = jsonrpsee_server::stop_channel();
+							let guard = jsonrpsee_server::ConnectionGuard::new(4);
+							if tname == "low-http" {
+								let conn = jsonrpsee_server::ConnectionState::new(stop, 0, guard.try_acquire().unwrap());
+								let resp = jsonrpsee_server::http::call_with_service_builder(srv::post(vec![text.clone().into_bytes()], None), scfg.clone(), conn, srv::std_module(log.clone()), jsonrpsee_server::middleware::rpc::RpcServiceBuilder::new()).await;
+								resp.into_body().collect().await.map(|b| b.to_bytes().to_vec()).map_err(|e| format!("{e:?}"))
+							} else {
+								let (methods, scfg2, stop2) = (srv::std_module(log.clone()), scfg.clone(), stop.clone());
+								let svc = tower::service_fn(move |req: http::Request<hyper::body::Incoming>| {
+									let (methods, scfg2, guard, stop2) = (methods.clone(), scfg2.clone(), guard.clone(), stop2.clone());
+									async move {
+										let conn = jsonrpsee_server::ConnectionState::new(stop2, 0, guard.try_acquire().unwrap());
+										match jsonrpsee_server::ws::connect(req, scfg2, methods, conn, jsonrpsee_server::middleware::rpc::RpcServiceBuilder::new()).await {
+											Ok((rp, fut)) => {
+												tokio::spawn(fut);
+												Ok::<_, std::convert::Infallible>(rp)
+											}
+											Err(rp) => Ok(rp),
+										}
+									}
+								});
+								let mut c = srv::ws_connect(svc, stop).await?;
+								c.send(text.as_bytes()).await?;
+								let r = tokio::time::timeout(std::time::Duration::from_secs(10), c.recv()).await.map_err(|_| "hang".to_string())?;
+								let _ = handle.stop();
+								r.ok_or_else(|| "closed without reply".to_string())
+							}
+						});
+						let case = json!({"engine":"ENUM","part":"single-low-level","limit": l, "request_limit": req_limit, "entry": tname, "request": text, "unlimited_reply_len": want.len(), "reply": got.as_ref().map(|g| String::from_utf8_lossy(g).to_string())});
+						let feat = format!("{}:{}", METHODS[mi], class_of(KINDS[ki]));
+						let Ok(got) = got else {
+							rep.violation(&format!("single:no-reply:{tname}:{feat}"), &format!("L={l}, request limit {req_limit}: {got:?}"), case);
+							continue;
+						};
+						let rel = (want.len() as i64 - l as i64).clamp(-4, 4);
+						if want.len() <= l as usize {
+							if got != *want {
+								rep.violation(&format!("single:fitting-reply-changed:{tname}:{feat}:len=limit{rel:+}"), &format!("L={l}, request limit {req_limit}: the unlimited reply has {} bytes (≤ L) but {tname} sent {:?}", want.len(), String::from_utf8_lossy(&got)), case.clone());
+							}
+						} else {
+							let v: Value = serde_json::from_slice(&got).unwrap_or(Value::Null);
+							let idv: Value = serde_json::from_str(IDS[ii]).unwrap();
+							if v["error"]["code"] != -32008 || v["id"] != idv {
+								rep.violation(&format!("single:oversized-not-replaced:{tname}:{feat}:len=limit{rel:+}"), &format!("L={l}, request limit {req_limit}: the reply would have {} bytes (> L) but {tname} sent {:?}", want.len(), String::from_utf8_lossy(&got)), case.clone());
+							}
+						}
+						if log.lock().unwrap().as_slice() != [METHODS[mi].to_string()] {
+							rep.violation(&format!("limit-changes-acceptance:{tname}:{feat}"), &format!("L={l}, request limit {req_limit}: handlers run {:?}", log.lock().unwrap()), case.clone());
+						}
+						local.case_unique(&format!("single:{tname}"));
+					}
+				}
+			}
+		});
+	}
 
 	// ---- batches: array length L-2..L+2 with the adjustable entry at every position
 	let kmax = if thorough { 6usize } else { 4 };
